@@ -31,6 +31,28 @@ def _feasible_bruteforce(v, u, d):
     return False
 
 
+def helper_purity_probe(rep, rng, n):
+    """the helpers of the lower bound must not modify the distance-distribution tables they are handed (their rows are reused for
+    every candidate assignment); returns the number of evaluations"""
+    import importlib, sys
+    importlib.import_module("persim.gromov_hausdorff")
+    G = sys.modules["persim.gromov_hausdorff"]
+    ev = 0
+    for _ in range(n):
+        md = rng.randint(1, 4)
+        v = [rng.randint(0, 3) for _i in range(md)]
+        u = [rng.randint(0, 3) for _i in range(md)]
+        d = rng.randint(1, md)
+        va, ua = np.array(v), np.array(u)
+        G.check_assignment_feasibility(va, ua, d)
+        ev += 1
+        if not (np.array_equal(va, v) and np.array_equal(ua, u)):
+            rep.violation("check_assignment_feasibility modified its arguments: %s,%s -> %s,%s (the caller reuses these rows, so later confirmations of the lower bound are computed on depleted data)" % (v, u, va.tolist(), ua.tolist()),
+                          "mgh:feasibility-mutates-arguments", {"input": {"v": v, "u": u, "d": d}, "call": "persim.gromov_hausdorff.check_assignment_feasibility(v, u, d)"})
+            break
+    return ev
+
+
 def _standin(rep, tier, seed, only_search=False):
     from standins.mgh_oracle import connected_graphs, dist_matrix, mgh, relabel
     import importlib, sys
@@ -91,6 +113,16 @@ def _standin(rep, tier, seed, only_search=False):
             rep.violation("bounds (%r, %r) do not bracket the true distance %r" % (lb, ub, true), "mgh:bracket:" + ("lower" if lb > true else "upper"), {"input": {"A": A.tolist(), "B": B.tolist()}, "observed": [lb, ub], "expected": true})
             if only_search:
                 return
+    # larger sparse graphs (exact distance out of reach): a valid bracket at least needs lower <= upper
+    for _ in range(150 if tier == "quick" else 4000):
+        A, B = _rand_graph(rng, rng.randint(4, 9), p=rng.choice([0.25, 0.35, 0.5])), _rand_graph(rng, rng.randint(3, 8), p=rng.choice([0.25, 0.35, 0.5]))
+        lb, ub = _gh(A, B, None, rng.randint(0, 10 ** 6))
+        evals += 1
+        if lb > ub:
+            rep.violation("lower bound %r exceeds upper bound %r on graphs with %d / %d vertices" % (lb, ub, len(A), len(B)), "mgh:bracket:lower-above-upper", {"input": {"A": A.tolist(), "B": B.tolist()}, "observed": [lb, ub]})
+            if only_search:
+                return
+            break
     # the assignment feasibility test: pure, and equal to brute force
     for _ in range(150 if tier == "quick" else 4000):
         md = rng.randint(1, 4)
